@@ -504,8 +504,21 @@ func c04f(c *Ctx) {
 			continue
 		}
 		guard := false
+		// membership is read with the comma-ok form, or — the set being a map to bool that only
+		// ever stores true and shrinks by delete — as the value itself
+		onlyTrue := true
+		instrs(fn, func(in ssa.Instruction) {
+			if mu, ok := in.(*ssa.MapUpdate); ok {
+				if k, isC := mu.Value.(*ssa.Const); !isC || k.Value == nil || k.Value.String() != "true" {
+					onlyTrue = false
+				}
+			}
+		})
 		for _, l := range c.mustLits(fn, call.Block()) {
 			if strings.HasPrefix(l, "+") && strings.HasSuffix(l, "["+x+"]#1") {
+				guard = true
+			}
+			if onlyTrue && strings.HasPrefix(l, "+") && strings.HasSuffix(l, "["+x+"]") {
 				guard = true
 			}
 		}
